@@ -80,6 +80,22 @@ Theorem C09_queue_discarded : forall acts1 acts2 c,
 Proof. exact queue_discarded_live. Qed.
 Print Assumptions C09_queue_discarded.
 
+(** Parked fire-and-forget sends: a send waiting for room in its generation's async queue is
+    released with ConnClosed as soon as the teardown of that generation STARTS (generation ctx
+    cancelled) — not only once the bounded join has finished — and never before. *)
+Theorem C09_parked_send_released : forall s c,
+  c_phase (calls s c) = PGated -> is_async (c_kind (calls s c)) = true ->
+  g_cancel (gens s (c_gen (calls s c))) = true ->
+  c_phase (calls (fst (exec s (EnqueueClosed c))) c) = PDone RClosed /\
+  snd (exec s (EnqueueClosed c)) = [OCompleted c (c_kind (calls s c)) RClosed].
+Proof. exact parked_send_released. Qed.
+Print Assumptions C09_parked_send_released.
+
+Theorem C09_parked_send_not_released_early : forall s c,
+  g_cancel (gens s (c_gen (calls s c))) = false -> exec s (EnqueueClosed c) = (s, []).
+Proof. exact parked_send_not_released_early. Qed.
+Print Assumptions C09_parked_send_not_released_early.
+
 (** Non-vacuity: a run in which a W-bit send is parked between its socket capture and its write
     across a drop, the teardown, the join, a reconnect and the next generation's Select, while a
     second call round-trips on generation 1 and an async frame is stranded in generation 0's queue,
@@ -115,4 +131,13 @@ Example C09_waiter_exists :
   let s := fst (run init acts) in
   c_phase (calls s 0) = PWait /\ g_cancel (gens s (c_gen (calls s 0))) = true /\
   live (c_phase (calls s 1)) = true /\ wired s 1 = false /\ g_cancel (gens s (c_gen (calls s 1))) = true.
+Proof. vm_compute. repeat split. Qed.
+
+(** Non-vacuity for the parked-send theorems: a reachable state with a send waiting for queue
+    space whose generation's teardown has started but whose join has NOT completed. *)
+Example C09_parked_exists :
+  let acts := [Open; TCPUp; Select; Enter 0 KAsync; B1 0; Drop; Teardown] in
+  let s := fst (run init acts) in
+  c_phase (calls s 0) = PGated /\ is_async (c_kind (calls s 0)) = true /\
+  g_cancel (gens s (c_gen (calls s 0))) = true /\ g_joined (gens s (c_gen (calls s 0))) = false.
 Proof. vm_compute. repeat split. Qed.
